@@ -313,6 +313,28 @@ func init() {
 		}
 		fmt.Fprintf(w, "def stmtIsNum : String := %s\n", leanStr(isNumStmt))
 		c19StrList(w, "stmtsFirstInstant", firstInstant)
+		// glue: flag read, default style, number format choice, Duration cells
+		for _, fn := range []struct{ recv, name, lean string }{
+			{"File", "setCellTimeFunc", "SetCellTimeFunc"}, {"File", "setDefaultTimeStyle", "SetDefaultTimeStyle"},
+			{"", "getTimeNumFmt", "GetTimeNumFmt"}, {"", "getDurationNumFmt", "GetDurationNumFmt"},
+		} {
+			fd := funcDecl(fn.recv, fn.name)
+			if fd == nil {
+				fail("func %s", fn.name)
+			}
+			c19StrList(w, "conds"+fn.lean, c19Conds(fd))
+		}
+		var glue []string
+		for _, fn := range []struct{ recv, name string }{{"File", "setCellTimeFunc"}, {"", "getTimeNumFmt"}, {"", "getDurationNumFmt"}, {"", "setCellDuration"}, {"File", "setDefaultTimeStyle"}} {
+			for _, st := range c19Stmts(funcDecl(fn.recv, fn.name)) {
+				if strings.HasPrefix(st, "date1904 =") || strings.HasPrefix(st, "isNum, err =") || strings.HasPrefix(st, "return 1") ||
+					strings.HasPrefix(st, "return 2") || strings.HasPrefix(st, "return 4") || strings.HasPrefix(st, "v = strconv") ||
+					strings.HasPrefix(st, "nextMonth :=") || strings.HasPrefix(st, "style.NumFmt =") || strings.HasPrefix(st, "styleIdx, _ =") {
+					glue = append(glue, fn.name+": "+st)
+				}
+			}
+		}
+		c19StrList(w, "stmtsGlue", glue)
 		ed := funcDecl("", "ExcelDateToTime")
 		if ed == nil {
 			fail("func ExcelDateToTime")
